@@ -159,7 +159,10 @@ def check_sock(gen, run):
         if len(att) == 1 + retries and all(a["fault"] for a in att):
             obs["dropped_after_budget"] = obs.get("dropped_after_budget", 0) + 1
         # lossless clause: exactly one transient write failure, retries left, link back in time
-        if len(nf) >= 1 and retries >= 1 and nf[0] is att[0]:
+        ign = S.ignored_attempts(gen, log, r)
+        if ign:
+            obs["write_to_lost_transport"] = obs.get("write_to_lost_transport", 0) + 1
+        if len(nf) == 1 and ign == 0 and retries >= 1 and nf[0] is att[0]:
             later = [(seq, t, c) for seq, t, c in opens if seq > nf[0]["seq"]]
             if later and later[0][1] < expiry - 1e-12:
                 nxt = later[0]
